@@ -23,3 +23,7 @@ SPEC = dc.spec(
                    "under 'later appends to the same file are lost too').",
     extra_assume=["power loss = loss of whole system calls that were not followed by fsync (same WAL file) / sync; no tearing, no reordering of metadata"])
 SPEC["level"] = "proof"
+
+
+def run(ctx, replay):
+    return dc.run_check(SPEC, ctx, replay)
